@@ -931,6 +931,27 @@ def classify_request(raw, item):
     return None
 
 
+def derive_children(schema, calls, read_statistic: bool) -> list:
+    """Derive (and drop) children from the schema that is about to be run: a wider include when it has includes, a
+    sweeping exclude when it has excludes.  The parent must not change."""
+    from schemathesis.core.errors import IncorrectUsage
+
+    done = []
+    if read_statistic:
+        schema.statistic
+        done.append("statistic")
+    try:
+        if schema.filter_set._includes:
+            schema.include(path_regex="^/")
+            done.append("include(path_regex='^/')")
+        if schema.filter_set._excludes:
+            schema.exclude(method=["get", "post", "put", "delete"])
+            done.append("exclude(method=[get,post,put,delete])")
+    except IncorrectUsage:
+        pass
+    return done
+
+
 def run_engine_stage(chk, n: int):
     import schemathesis
     from harness.loopback import Recorder
@@ -962,7 +983,9 @@ def run_engine_stage(chk, n: int):
             else:
                 schema = build_schema(raw, calls, funcs)
             seed = rng.randrange(1, 10**6)
-            case = {"engine": {"calls": calls, "phases": phases, "seed": seed, "via_cli": via_cli, "negative": negative}}
+            derived = derive_children(schema, calls, rng.random() < 0.5) if rng.random() < 0.7 else []
+            case = {"engine": {"calls": calls, "phases": phases, "seed": seed, "via_cli": via_cli, "negative": negative,
+                               "children_derived_before_the_run": derived}}
             evs, got = run_engine_on(schema, rec, phases, seed, negative=negative)
             runs += 1
             chk.seen(case, True)
@@ -1039,6 +1062,103 @@ def cli_filter_arguments(calls):
             else:
                 kw[f"{mode}_{k}"].append(v)
     return FilterArguments(**kw)
+
+
+# ----------------------------------------------------------------------------------------
+# derivation histories: a tree of schemas, every node observed
+# ----------------------------------------------------------------------------------------
+def gen_history(rng, singles) -> list:
+    events = []
+    nodes = 1  # optimistic count (a rejected derivation just makes later indices point at earlier nodes or nowhere)
+    for _ in range(rng.choice([2, 3, 4, 5, 6, 7])):
+        if rng.random() < 0.25:
+            events.append(["stat", rng.randrange(nodes + 1)])
+            continue
+        call = rng.choice(singles) if rng.random() < 0.8 else gen_call(rng)
+        # aliasing needs a parent that already has a filter of the same kind: prefer recent nodes and repeat the kind
+        parent = rng.randrange(nodes) if rng.random() < 0.5 else nodes - 1
+        if events and rng.random() < 0.5:
+            prev = [e for e in events if e[0] == "derive"]
+            if prev:
+                call = dict(call, kind=prev[-1][2]["kind"])
+                if call["kind"] == "include":
+                    call.pop("deprecated", None)
+        events.append(["derive", parent, call])
+        nodes += 1
+    return events
+
+
+def run_history_impl(raw, events, funcs: Funcs):
+    import schemathesis
+    from schemathesis.core.errors import IncorrectUsage
+
+    nodes = [schemathesis.openapi.from_dict(copy.deepcopy(raw))]
+    chains: list[list] = [[]]
+    for ev in events:
+        if ev[0] == "derive":
+            _, p, call = ev
+            if p >= len(nodes):
+                continue
+            kw = py_kwargs(call, funcs)
+            func = kw.pop("func", None)
+            try:
+                child = nodes[p].include(func, **kw) if call["kind"] == "include" else nodes[p].exclude(func, **kw)
+            except IncorrectUsage:
+                continue
+            nodes.append(child)
+            chains.append(chains[p] + [call])
+        else:
+            if ev[1] < len(nodes):
+                nodes[ev[1]].statistic  # cached_property
+    return [observe_schema(n) for n in nodes], chains
+
+
+def c_event(ev, funcs: Funcs) -> str:
+    if ev[0] == "derive":
+        return f"(EDerive {ev[1]}%nat {c_call(ev[2], funcs)})"
+    return f"(EStat {ev[1]}%nat)"
+
+
+def run_history_stage(chk, n_docs: int, per_doc: int):
+    rng = chk.rng
+    singles = single_calls()
+    docs = fixed_docs()[:5]
+    exprs, index = [], []
+    for i in range(n_docs):
+        raw = docs[i % len(docs)] if i < 2 * len(docs) else gen_doc(rng)
+        mdoc = model_doc(raw)
+        cdoc = c_doc(mdoc)
+        hs, impls = [], []
+        for _ in range(per_doc):
+            events = gen_history(rng, singles)
+            funcs = Funcs()
+            rendered = clist([c_event(e, funcs) for e in events], "event")
+            impls.append((events,) + run_history_impl(raw, events, funcs))
+            hs.append(rendered)
+        exprs.append(f"(let d := {cdoc} in map (run_history d) {clist(hs, '(list event)')})")
+        index.append((raw, mdoc, impls))
+    model = core.coq_eval(IMPORTS, exprs, shard=8)
+    n = 0
+    for (raw, mdoc, impls), mvs in zip(index, model):
+        for (events, obs_nodes, chains), mv in zip(impls, mvs):
+            n += 1
+            case = {"doc": raw["paths"], "history": events}
+            chk.seen(case, len(obs_nodes) >= 3)
+            chk.count(f"history:nodes={len(obs_nodes)}")
+            impl_c = [(o["offered"], tuple(o["stat"]), o["transitions"]) for o in obs_nodes]
+            model_c = []
+            for offered, stat, trs in mv:
+                trs = _sym(trs)
+                model_c.append(([(pstr(p), pstr(m)) for p, m in offered], tuple(stat),
+                                None if trs is None else sorted((pstr(a), pstr(b), pstr(c), pstr(d)) for a, b, c, d in trs[1])))
+            if impl_c != model_c:
+                chk.disagree("history: every node of the schema tree vs Model_C07.run_history", case, impl_c, model_c)
+            # the property, node by node: each schema answers for ITS OWN chain of calls only
+            for i, (obs, chain) in enumerate(zip(obs_nodes, chains)):
+                if obs["errors"]:
+                    continue
+                check_property(chk, raw, mdoc, chain, obs, f"history node {i} of {len(obs_nodes)} (own chain {json.dumps(chain)[:200]}, history {json.dumps(events)[:300]})")
+    return {"histories": n, "documents": n_docs}
 
 
 # ----------------------------------------------------------------------------------------
@@ -1209,6 +1329,9 @@ def run(chk: core.Check):
     n = run_correspondence(chk, work, "schema")
     chk.stages["correspondence_schema"] = {"cases": n, "documents": len(work), "corpus": len(corpus), "single_calls": len(singles)}
 
+    # ---- derivation histories (trees of schemas, cached statistic reads in between)
+    chk.stages["correspondence_histories"] = run_history_stage(chk, 16 if quick else 300, 25 if quick else 40)
+
     # ---- CLI options
     chk.stages["correspondence_cli"] = run_cli_stage(chk, 300 if quick else 6000)
 
@@ -1276,6 +1399,8 @@ def replay(payload) -> int:
                     schema.filter_set = cli_filter_arguments(e["calls"]).into()
                 else:
                     schema = build_schema(raw, e["calls"], Funcs())
+                if e.get("children_derived_before_the_run"):
+                    derive_children(schema, e["calls"], "statistic" in e["children_derived_before_the_run"])
                 evs, got = run_engine_on(schema, rec, e["phases"], e["seed"], negative=bool(e.get("negative")))
             finally:
                 rec.close()
